@@ -130,7 +130,7 @@ fn main() {
             }
             "rtc" => {
                 let o = rtc::RtcOpts { remote: get("remote", 1) != 0, cut: get("cut", 0) != 0, oversize: get("oversize", 0) != 0,
-                                       undecodable: get("undecodable", 0) != 0, flavour: get("flavour", 4) };
+                                       undecodable: get("undecodable", 0) != 0, flavour: get("flavour", 4), conns: get("conns", 1) };
                 rt.block_on(rtc::scenario(s, &o));
             }
             "robs_chain" => {
